@@ -74,7 +74,10 @@ func (w *World) setup() {
 	// G2. The two components cancel in every SUM of the vector's points, and since x^12 = 1
 	// (mod 13) for every x not divisible by 13, the public key shares of participants 1..12
 	// are unchanged: only a per-point subgroup check sees the vector is invalid. Needs t >= 12.
-	fermat := w.o.Mode == "adv" && c.Bool(1, 20, "fermat")
+	// modes "fermat" and "torsion" force the corresponding template in every run (used by the
+	// cross-build transcript of C20: the verdict hinges on the per-point subgroup check)
+	advLike := w.o.Mode == "adv" || w.o.Mode == "fermat" || w.o.Mode == "torsion"
+	fermat := (w.o.Mode == "adv" && c.Bool(1, 20, "fermat")) || w.o.Mode == "fermat"
 	if fermat {
 		w.n = 14 + c.Choose(3, "fermat.n")
 		w.proto = QUAL + c.Choose(2, "fermat.proto")
@@ -115,7 +118,7 @@ func (w *World) setup() {
 	f := 0
 	if fmax > 0 {
 		f = c.Weighted(append([]int{1}, ones(fmax, 4)...), "f")
-		if w.o.Mode == "adv" && f == 0 {
+		if advLike && f == 0 {
 			f = 1
 		}
 		if (wide || fermat) && f > 1 {
@@ -131,7 +134,7 @@ func (w *World) setup() {
 	}
 	// choose Byzantine indices anywhere; for single-dealer protocols make the dealer Byzantine in half of the runs
 	left := f
-	if f > 0 && w.proto != JF && !wide && (c.Bool(1, 2, "byzdealer") || w.o.Mode == "adv") {
+	if f > 0 && w.proto != JF && !wide && (c.Bool(1, 2, "byzdealer") || advLike) {
 		w.nodes[w.dealer].byz = true
 		left--
 	}
@@ -180,7 +183,7 @@ func (w *World) setup() {
 					// no other template
 				} else if c.Bool(1, 8, "truncattack") {
 					w.makeTruncated(w.byz[i], seeds.Bytes(32), 1+c.Choose(w.t, "trunc.k"))
-				} else if w.t >= 2 && c.Bool(1, 8, "torsionattack") {
+				} else if w.t >= 2 && (c.Bool(1, 8, "torsionattack") || w.o.Mode == "torsion") {
 					w.byz[i].torsionFor = c.Choose(w.n, "torsion.for")
 				}
 			}
